@@ -42,21 +42,22 @@ type Obligation struct {
 	Inputs  []InputVar
 
 	// results
-	Status   string // discharged | failed | undecided | trivially-true | covered | vacuous
-	Solver   string
-	Seconds  float64
-	Size     int
-	Output   string
-	Model    map[string]string
-	Others   map[string]string
-	ctx      *Engine
-	textStd  string
-	textCVC  string
-	nvals    int
-	subs     []subQuery
-	full     *smt.Query
-	Cases    int
-	FailText string
+	Status     string // discharged | failed | undecided | trivially-true | covered | vacuous
+	Solver     string
+	Seconds    float64
+	Size       int
+	Output     string
+	Model      map[string]string
+	Others     map[string]string
+	ctx        *Engine
+	textStd    string
+	textCVC    string
+	nvals      int
+	subs       []subQuery
+	full       *smt.Query
+	skolemized bool
+	Cases      int
+	FailText   string
 }
 
 type InputVar struct {
@@ -393,6 +394,7 @@ func (o *Obligation) Prepare() {
 		o.Solver = "simplifier"
 		return
 	}
+	o.skolemize()
 	q := o.Query(true)
 	o.Size = c.Size(q)
 	for _, a := range q.Asserts {
@@ -706,4 +708,65 @@ func (e *Engine) oblPC(st *State) []*smt.Term {
 		}
 	}
 	return out
+}
+
+// skolemize replaces universally quantified conjuncts of the goal by instances at fresh constants and adds, for
+// every universally quantified assumption with the same bound-variable sorts, its instance at those constants.
+func (o *Obligation) skolemize() {
+	if o.Kind == KindCover || o.skolemized {
+		return
+	}
+	o.skolemized = true
+	c := o.ctx.C
+	var conj []*smt.Term
+	if o.Goal.Op == smt.OAnd {
+		conj = o.Goal.Args
+	} else {
+		conj = []*smt.Term{o.Goal}
+	}
+	var newGoal []*smt.Term
+	var sks [][]*smt.Term
+	for _, g := range conj {
+		if g.Op != smt.OForall {
+			newGoal = append(newGoal, g)
+			continue
+		}
+		bound := g.Args[1:]
+		m := map[int]*smt.Term{}
+		var fresh []*smt.Term
+		for _, b := range bound {
+			f := c.FreshVar("sk", b.Sort)
+			m[b.ID] = f
+			fresh = append(fresh, f)
+		}
+		newGoal = append(newGoal, c.Subst(g.Args[0], m))
+		sks = append(sks, fresh)
+	}
+	if len(sks) == 0 {
+		return
+	}
+	o.Goal = c.And(newGoal...)
+	for _, p := range append([]*smt.Term{}, o.PC...) {
+		if p.Op != smt.OForall {
+			continue
+		}
+		bound := p.Args[1:]
+		for _, fresh := range sks {
+			if len(fresh) != len(bound) {
+				continue
+			}
+			ok := true
+			m := map[int]*smt.Term{}
+			for i, b := range bound {
+				if b.Sort != fresh[i].Sort {
+					ok = false
+					break
+				}
+				m[b.ID] = fresh[i]
+			}
+			if ok {
+				o.PC = append(o.PC, c.Subst(p.Args[0], m))
+			}
+		}
+	}
 }
